@@ -130,6 +130,9 @@ var (
 	tFloat64 = types.Typ[types.Float64]
 	tFloat32 = types.Typ[types.Float32]
 	tArr2    = types.NewArray(tInt32, 2)
+	tArr3    = types.NewArray(tInt32, 3)
+	tC128    = types.Typ[types.Complex128]
+	tStructF = types.NewStruct([]*types.Var{types.NewField(token.NoPos, nil, "F", tFloat64, false), types.NewField(token.NoPos, nil, "N", tInt8, false)}, nil)
 	tStruct  = types.NewStruct([]*types.Var{types.NewField(token.NoPos, nil, "A", tInt32, false), types.NewField(token.NoPos, nil, "B", tString, false)}, nil)
 	tEface   = types.NewInterfaceType(nil, nil)
 	tBigKey  = types.NewArray(tInt64, 20) // 160 bytes: stored indirectly
@@ -141,5 +144,5 @@ var (
 
 func init() { tEface.Complete() }
 
-var keyTypes = map[string]types.Type{"int64": tInt64, "int8": tInt8, "string": tString, "float64": tFloat64, "float32": tFloat32, "arr2i32": tArr2, "struct": tStruct, "iface": tEface, "big": tBigKey}
+var keyTypes = map[string]types.Type{"int64": tInt64, "int8": tInt8, "string": tString, "float64": tFloat64, "float32": tFloat32, "complex128": tC128, "arr3i32": tArr3, "structf": tStructF, "arr2i32": tArr2, "struct": tStruct, "iface": tEface, "big": tBigKey}
 var elemTypes = map[string]types.Type{"int64": tInt64, "empty": tEmpty, "big200": tBig200, "string": tString}
